@@ -53,6 +53,9 @@ def do_confirm(sid):
         ran.append('demo on unchanged tree: exit %d' % r0.returncode)
         ra = sh(['git', 'apply', os.path.join(d, 'patch.diff')], cwd=wt)
         ran.append('git apply: exit %d %s' % (ra.returncode, ra.stderr.strip()[:200]))
+        if ra.returncode != 0:      # the repository moved on since the seed was written: allow offsets/fuzz
+            ra = sh(['patch', '-p1', '-s', '-i', os.path.join(d, 'patch.diff')], cwd=wt)
+            ran.append('patch -p1 (fallback): exit %d %s' % (ra.returncode, (ra.stdout + ra.stderr).strip()[:200]))
         r1 = sh(['/venv/bin/python', '_demo.py'], cwd=wt, env=env, timeout=1800)
         ran.append('demo with the change: exit %d' % r1.returncode)
         t0 = time.time()
@@ -113,8 +116,30 @@ def do_run(sid, props=None, jobs=None):
     shutil.rmtree(base, ignore_errors=True)
 
 
+def do_report():
+    rows = []
+    for sid in sorted(os.listdir(SEEDED)):
+        mp = os.path.join(SEEDED, sid, 'meta.json')
+        if not os.path.exists(mp):
+            continue
+        m = json.load(open(mp))
+        det = '; '.join('%s: %s' % (k, v.split(';')[0]) for k, v in sorted(m.get('detected_by', {}).items()))
+        rows.append('| %s | %s | %s | %s | %s |' % (sid, m['property'], m.get('confirmed'), det,
+                                                     str(m.get('needs_to_manifest', ''))[:160].replace('|', '/')))
+    txt = ('# Seeded defects (independent sub-agents, property text only)\n\n'
+           'confirmed = demo exits 0 without / non-zero with the change AND the repository suite passes with it '
+           '(checked by the lead in a scratch worktree, see meta.json "what_i_ran").\n\n'
+           '| seed | property | confirmed | quick checks run against it (last run) | needs to manifest |\n|---|---|---|---|---|\n'
+           + '\n'.join(rows) + '\n')
+    open(os.path.join(SEEDED, 'RESULTS.md'), 'w').write(txt)
+    print(txt)
+
+
 if __name__ == '__main__':
     a = sys.argv[1:]
+    if a[0] == 'report':
+        do_report()
+        sys.exit(0)
     if a[0] == 'import':
         do_import(*a[1:6])
     elif a[0] == 'confirm':
